@@ -29,8 +29,18 @@ pub struct Optimizer<F>(core::marker::PhantomData<F>);
 
 impl<F: Field> Optimizer<F> {
     pub fn optimize(ops: Vec<Op<F>>) -> (Vec<Op<F>>, HashMap<WitnessId, WitnessId>) {
+        Self::optimize_with_inputs(ops, &[])
+    }
+
+    /// Like [`Self::optimize`], additionally told which witnesses are set from outside the op
+    /// list (private inputs): they are available from the start although no op defines them.
+    pub fn optimize_with_inputs(
+        ops: Vec<Op<F>>,
+        input_witnesses: &[WitnessId],
+    ) -> (Vec<Op<F>>, HashMap<WitnessId, WitnessId>) {
         let (ops, rewrite) = Deduplicator::new().run(ops);
-        let ops = MulAddFusion::new(&ops).run(ops);
+        let inputs = input_witnesses.iter().map(|w| w.resolve(&rewrite));
+        let ops = MulAddFusion::new_with_inputs(&ops, inputs).run(ops);
         (ops, rewrite)
     }
 }
